@@ -399,6 +399,27 @@ fn check_locked(rounds: u64, out: &mut MsOut) {
                 Err(_) => out.stats.count("c08_poisoned_lock_refused_to_answer"),
             }
         }
+        // a writer elsewhere that follows its own lock order over SEVERAL locks of one collection (holds a later element,
+        // then wants an earlier one) while the collection is measured: the measurement must not hold one element's lock
+        // while it waits for another's, or the two block each other for good. Decided by a very generous timeout
+        // (60 s for something that takes 40 ms); only a mutant ever waits that long.
+        if i % 4 == 1 {
+            let locks: Arc<Vec<RwLock<String>>> = Arc::new((0..3).map(|j| RwLock::new(String::with_capacity(16 * (j + 1)))).collect());
+            let want: u128 = (locks.capacity() * size_of::<RwLock<String>>()) as u128 + locks.iter().map(|l| l.read().unwrap().capacity() as u128).sum::<u128>();
+            let (tx, rx) = mpsc::channel();
+            let l2 = locks.clone();
+            let writer = std::thread::spawn(move || { let w1 = l2[1].write().unwrap(); tx.send(()).unwrap(); std::thread::sleep(std::time::Duration::from_millis(40)); let w0 = l2[0].write().unwrap(); drop(w0); drop(w1); });
+            rx.recv().unwrap();
+            let (rtx, rrx) = mpsc::channel();
+            let l3 = locks.clone();
+            let measurer = std::thread::spawn(move || { let h = (*l3).heap_size(); let _ = rtx.send(h); });
+            out.stats.count("c08_measured_against_a_writer_with_its_own_lock_order");
+            out.stats.eval("C08", mix(&[982, i % 3]));
+            match rrx.recv_timeout(std::time::Duration::from_secs(60)) {
+                Ok(h) => { let _ = writer.join(); let _ = measurer.join(); if h as u128 != want { viol(out, "C08", "law:Vec<RwLock>-contended", format!("Vec<RwLock<String>> measured while a writer worked on it: heap_size() = {}, it holds {}", h, want)); } }
+                Err(_) => { viol(out, "C08", "totality-deadlock", "Vec<RwLock<String>>::heap_size() did not return within 60 s while a writer that holds element 1 asked for element 0: the measurement keeps one element locked while it waits for another".to_string()); return; }
+            }
+        }
         if hrw != wrw { viol(out, "C08", "law:RwLock-locked-elsewhere", format!("RwLock<Vec<u64>> measured while another thread held the write lock: heap_size() = {}, its content holds {}", hrw, wrw)); }
     }
 }
